@@ -5542,6 +5542,8 @@ func asLiteral(v interface{}) Literal {
 		return &NumberLiteral{Val: v}
 	case int64:
 		return &IntegerLiteral{Val: v}
+	case uint64:
+		return &UnsignedLiteral{Val: v}
 	case string:
 		return &StringLiteral{Val: v}
 	case time.Time:
